@@ -266,6 +266,13 @@ func gen(r *hx.Rand, tier string) []json.RawMessage {
 	add(input{Kind: "e2e", Allow: "1", Spell: "http://rebind-local.test:%PORT%/"}) // opt-in: the rebound name does reach the local server
 	add(input{Kind: "e2e", Spell: "http://rebind-local.test:%PORT%/"})
 	add(input{Kind: "e2e", Spell: "http://flip-local.test:%PORT%/"}) // reached only if the dialer resolved the name once more
+	for _, n := range []string{"flip2-local.test", "flip3-local.test", "flip4-local.test", "flipds-local.test", "flip2-int.test",
+		"flip2-map.test", "flip2-meta.test", "rebind2-local.test", "pub2.test"} {
+		add(input{Kind: "e2e", Spell: "http://" + n + ":%PORT%/v1/models"})
+		add(input{Kind: "dial", Addr: n + ":443", Phase: 1})
+		add(input{Kind: "guard", URL: "http://" + n + "/", Phase: 1})
+	}
+	add(input{Kind: "e2e", Allow: "true", Spell: "http://rebind2-local.test:%PORT%/"})
 
 	// ---- end to end against a local server
 	for _, s := range []string{"http://127.0.0.1:%PORT%/", "http://localhost:%PORT%/", "http://[::ffff:127.0.0.1]:%PORT%/",
